@@ -54,6 +54,11 @@ Theorem C19_reverse_blocksize_independent : forall c bs bs' pos, (1 <= bs)%nat -
 Proof. exact reverse_blocksize_independent. Qed.
 Print Assumptions C19_reverse_blocksize_independent.
 
+(* which decoding is applied: the encoding argument of the caller wins over the handle's own encoding *)
+Theorem C19_encoding_argument_wins : forall arg own : option fmode, pick_encoding arg own = caller_wins arg own.
+Proof. exact pick_encoding_caller_wins. Qed.
+Print Assumptions C19_encoding_argument_wins.
+
 (* what it is for every content: the split of everything before the cursor done at once *)
 Theorem C19_reverse_is_one_split : forall c bs pos, (1 <= bs)%nat ->
   reverse_iter_lines_bytes c bs pos = Some (ril_tail (firstn pos c)).
@@ -208,6 +213,17 @@ Example C19_jsonl_ex :
   jsonl_iter mini_loads Binary true true c = Ok ([JStr [233]; JInt 12], false) /\
   jsonl_iter mini_loads Binary false true c = Ok ([JStr [233]], true).
 Proof. exact (conj eq_refl (conj eq_refl (conj eq_refl eq_refl))). Qed.
+
+(* every kind of JSON value is a record of its own - null is a value json.loads returns, not a failure *)
+Example C19_jsonl_all_kinds_ex :
+  let c := [110; 117; 108; 108; 10; 102; 97; 108; 115; 101; 10; 48; 10; 34; 34; 10; 91; 93; 10; 123; 32; 125; 10;
+            110; 117; 108; 10; 116; 114; 117; 101] in      (* null false 0 "" [] { } nul true *)
+  jsonl_iter mini_loads Binary true false c
+  = Ok ([JNull; JBool false; JInt 0; JStr []; JList; JDict; JBool true], false) /\
+  jsonl_iter mini_loads Binary true true c
+  = Ok ([JBool true; JDict; JList; JStr []; JInt 0; JBool false; JNull], false) /\
+  jsonl_iter mini_loads Binary false false c = Ok ([JNull; JBool false; JInt 0; JStr []; JList; JDict], true).
+Proof. exact (conj eq_refl (conj eq_refl eq_refl)). Qed.
 
 (* ---- the Spec itself: "never splits anywhere else" ----------------------------------------- *)
 (* independent of any algorithm: the reference lines contain no break character, there is one
